@@ -413,3 +413,118 @@ package graphql
 //@   requires p != nil
 //@   nopanic
 //@   replay addUpload.go.tmpl
+
+// ---------------------------------------------------------------- C01 (runtime part): collection, inclusion, error bookkeeping
+//@ spec dirForName(int, int, int, string) int
+//@ trusted (github.com/vektah/gqlparser/v2/ast.DirectiveList).ForName(name) (d)
+//@   ensures d == dirForName(recv, name)
+//@   nopanic
+//@   pure
+//@ trusted resolveIfArgument(d, variables) (b)
+//@   pure
+//@ trusted getResponseContext(ctx) (c)
+//@   ensures c != nil
+//@   pure
+//@ trusted (*sync.Mutex).Lock()
+//@   nopanic
+//@   pure
+//@ trusted (*sync.Mutex).Unlock()
+//@   nopanic
+//@   pure
+//@ trusted (*FieldContext).Path() (p)
+//@   pure
+//@ trusted GetPath(ctx) (p)
+//@   pure
+//@ trusted github.com/vektah/gqlparser/v2/gqlerror.WrapPath(path, err) (e)
+//@   ensures e != nil
+//@   pure
+//@ trusted field:github.com/99designs/gqlgen/graphql.responseContext.errorPresenter(ctx, err) (e)
+//@   modifies Error.*
+
+// @skip/@include: included iff not skipped and (no @include or its condition holds).
+//@ func shouldIncludeNode [C01]
+//@   ghost skip = false
+//@   ghost include = true
+//@   at `resolveIfArgument(d, variables)`#1 requires arg0 == dirForName(directives, "skip") && arg0 != nil
+//@   at `resolveIfArgument(d, variables)`#1 ghost skip = callres0
+//@   at `resolveIfArgument(d, variables)`#2 requires arg0 == dirForName(directives, "include") && arg0 != nil
+//@   at `resolveIfArgument(d, variables)`#2 ghost include = callres0
+//@   ensures res0 <==> (!skip && include)
+//@   ensures len(directives) == 0 ==> res0
+//@   ensures len(directives) > 0 && dirForName(directives, "skip") == nil && dirForName(directives, "include") == nil ==> res0
+//@   ensures len(directives) > 0 && dirForName(directives, "skip") != nil ==> calls(resolveIfArgument) >= 1
+//@   modifies nothing
+//@ func instanceOf [C01]
+//@   loop 1: invariant forall k int :: (0 <= k && k < idx1) ==> satisfies[k] != val
+//@   ensures res0 <==> (exists k int :: 0 <= k && k < len(satisfies) && satisfies[k] == val)
+//@   nopanic
+//@   pure
+//@ func equalPath [C01]
+//@   loop 1: invariant 0 <= i && i <= len(a) && (forall k int :: (0 <= k && k < i) ==> a[k] == b[k])
+//@   ensures res0 <==> (len(a) == len(b) && (forall k int :: (0 <= k && k < len(a)) ==> a[k] == b[k]))
+//@   nopanic
+//@   pure
+
+// Field collection. A freshly created collected field carries the AST field and NO selections: selections are only
+// ever accumulated by append onto the collected field's own (initially nil, hence freshly allocated) slice, so
+// collection never writes into the parsed - possibly cached and shared - document (C07, C06). Fields that fail
+// @skip/@include never reach the grouped set.
+//@ func collectFields$1 [C01,C07,C06]
+//@   ensures res0.Field == sel && res0.Selections == nil && res0.Deferrable == nil
+//@   nopanic
+//@   pure
+//@ trusted getOrCreateAndAppendField(c, name, alias, objectDefinition, creator) (f)
+//@   ensures f != nil
+//@ trusted deferrable(directives, variables) (shouldDefer, label)
+//@   pure
+//@ trusted (github.com/vektah/gqlparser/v2/ast.FragmentDefinitionList).ForName(name) (f)
+//@   pure
+//@ func collectFields [C01,C07,C13]
+//@   requires reqCtx != nil
+//@   ghost inc = false
+//@   at `shouldIncludeNode(sel.Directives, reqCtx.Variables)`#1 requires arg0 == sel.Directives
+//@   at `shouldIncludeNode(sel.Directives, reqCtx.Variables)`#1 ghost inc = callres0
+//@   at `getOrCreateAndAppendField(&groupedFields, sel.Name, sel.Alias, sel.ObjectDefinition, func() CollectedField { return Coll...` requires inc && arg1 == sel.Name && arg2 == sel.Alias && arg3 == sel.ObjectDefinition
+//@   at `append(f.Selections, sel.SelectionSet...)` requires arg1 == sel.SelectionSet
+//@   at `shouldIncludeNode(sel.Directives, reqCtx.Variables)`#2 ghost inc = callres0
+//@   at `deferrable(sel.Directives, reqCtx.Variables)`#1 requires inc
+//@   at `shouldIncludeNode(sel.Directives, reqCtx.Variables)`#3 ghost inc = callres0
+//@   at `deferrable(sel.Directives, reqCtx.Variables)`#2 requires inc
+//@   ensures calls(shouldIncludeNode) >= 0
+
+// Error bookkeeping: AddError records exactly one presented error for a non-nil error and nothing for nil.
+//@ func AddError [C01]
+//@   ensures err == nil ==> calls(errorPresenter) == 0 && calls(getResponseContext) == 0
+//@   ensures err != nil ==> calls(errorPresenter) == 1 && calls(ErrorOnPath) == 1 && calls(Lock) == 1 && calls(Unlock) == 1
+//@   at `c.errorPresenter(ctx, ErrorOnPath(ctx, err))` requires true
+//@ trusted ErrorOnPath(ctx, err) (e)
+//@   modifies Error.Path
+//@ func DefaultErrorPresenter [C01]
+//@   ensures err == nil ==> res0 == nil
+//@   ensures err != nil ==> res0 != nil || calls(As) == 1
+//@ func HasFieldError [C01]
+//@   requires rctx != nil
+//@   ghost found = false
+//@   at `equalPath(err.Path, path)` ghost found = found || callres0
+//@   loop 1: invariant !found
+//@   ensures res0 <==> found
+//@   ensures calls(Lock) == calls(Unlock)
+
+// Response paths: Path() builds a NEW slice on every call (never storage shared with another field context or
+// with an error that was already recorded), so later siblings cannot rewrite an earlier position's path.
+//@ trusted GetFieldContext(ctx) (fc)
+//@   pure
+//@ trusted context.WithValue(parent, key, val) (ctx)
+//@   ensures ctx != nil
+//@   nopanic
+//@   pure
+//@ func (*FieldContext).Path [C01]
+//@   loop 1: invariant local(path)
+//@   loop 2: invariant i < len(path) && local(path)
+//@   ensures local(res0)
+//@   modifies nothing
+//@ func WithFieldContext [C01]
+//@   requires rc != nil
+//@   ensures res0 != nil
+//@   ensures calls(GetFieldContext) == 1 && calls(WithValue) == 1
+//@   modifies FieldContext.Parent
